@@ -3,9 +3,12 @@ package main
 import (
 	"context"
 	"fmt"
+	"go/ast"
+	"go/parser"
+	"go/token"
 	"os"
 	"path/filepath"
-	"regexp"
+	"strconv"
 	"time"
 
 	"github.com/mgtv-tech/redis-GunYu/config"
@@ -49,20 +52,154 @@ func repoDir() string {
 	return "/repo"
 }
 
-var (
-	ttlExprRe = regexp.MustCompile(`ttl\s*:=\s*int\(config\.GetSyncerConfig\(\)\.Cluster\.LeaseTimeout\s*/\s*time\.Second\)`)
-	ttlUseRe  = regexp.MustCompile(`cluster\.NewRedisCluster\([^,\n]+,[^,\n]+,\s*ttl\)`)
-)
+// syncerTTL finds, in cmd/syncer.go, the third argument of the cluster.NewRedisCluster(…) call
+// (resolving one local variable) and returns an evaluator of that expression for a given
+// Cluster.LeaseTimeout.  (*SyncerCmd).Run cannot be executed without a whole syncer, so the check
+// evaluates the tool's own conversion expression instead of assuming it.
+func syncerTTL(src []byte) (eval func(lt time.Duration) (int64, error), text string, err error) {
+	fset := token.NewFileSet()
+	f, err := parser.ParseFile(fset, "syncer.go", src, 0)
+	if err != nil {
+		return nil, "", err
+	}
+	var arg ast.Expr
+	var callPos token.Pos
+	var encl *ast.FuncDecl
+	for _, d := range f.Decls {
+		fd, ok := d.(*ast.FuncDecl)
+		if !ok || fd.Body == nil {
+			continue
+		}
+		ast.Inspect(fd.Body, func(n ast.Node) bool {
+			c, ok := n.(*ast.CallExpr)
+			if !ok {
+				return true
+			}
+			if se, ok := c.Fun.(*ast.SelectorExpr); ok && se.Sel.Name == "NewRedisCluster" && len(c.Args) == 3 {
+				if x, ok := se.X.(*ast.Ident); ok && x.Name == "cluster" && arg == nil {
+					arg, callPos, encl = c.Args[2], c.Pos(), fd
+				}
+			}
+			return true
+		})
+	}
+	if arg == nil {
+		return nil, "", fmt.Errorf("no cluster.NewRedisCluster(ctx, cfg, ttl) call found")
+	}
+	if id, ok := arg.(*ast.Ident); ok { // resolve the local variable: last assignment before the call
+		var def ast.Expr
+		ast.Inspect(encl.Body, func(n ast.Node) bool {
+			as, ok := n.(*ast.AssignStmt)
+			if !ok || as.Pos() >= callPos || len(as.Lhs) != 1 || len(as.Rhs) != 1 {
+				return true
+			}
+			if l, ok := as.Lhs[0].(*ast.Ident); ok && l.Name == id.Name {
+				def = as.Rhs[0]
+			}
+			return true
+		})
+		if def == nil {
+			return nil, "", fmt.Errorf("definition of %s not found", id.Name)
+		}
+		arg = def
+	}
+	text = string(src[fset.Position(arg.Pos()).Offset:fset.Position(arg.End()).Offset])
+	if _, err := evalTTLExpr(arg, 10*time.Second); err != nil {
+		return nil, text, err
+	}
+	return func(lt time.Duration) (int64, error) { return evalTTLExpr(arg, lt) }, text, nil
+}
+
+var timeUnits = map[string]int64{"Nanosecond": 1, "Microsecond": 1e3, "Millisecond": 1e6, "Second": 1e9, "Minute": 60e9, "Hour": 3600e9}
+
+func evalTTLExpr(e ast.Expr, lt time.Duration) (int64, error) {
+	switch x := e.(type) {
+	case *ast.BasicLit:
+		if x.Kind == token.INT {
+			return strconv.ParseInt(x.Value, 0, 64)
+		}
+	case *ast.ParenExpr:
+		return evalTTLExpr(x.X, lt)
+	case *ast.BinaryExpr:
+		l, err := evalTTLExpr(x.X, lt)
+		if err != nil {
+			return 0, err
+		}
+		r, err := evalTTLExpr(x.Y, lt)
+		if err != nil {
+			return 0, err
+		}
+		switch x.Op {
+		case token.ADD:
+			return l + r, nil
+		case token.SUB:
+			return l - r, nil
+		case token.MUL:
+			return l * r, nil
+		case token.QUO:
+			if r == 0 {
+				return 0, fmt.Errorf("division by zero")
+			}
+			return l / r, nil
+		}
+	case *ast.SelectorExpr:
+		if p, ok := x.X.(*ast.Ident); ok && p.Name == "time" {
+			if u, ok := timeUnits[x.Sel.Name]; ok {
+				return u, nil
+			}
+		}
+		if x.Sel.Name == "LeaseTimeout" {
+			return int64(lt), nil
+		}
+	case *ast.CallExpr:
+		if len(x.Args) == 1 { // conversions
+			switch fn := x.Fun.(type) {
+			case *ast.Ident:
+				switch fn.Name {
+				case "int", "int64", "int32", "uint", "uint32", "uint64":
+					return evalTTLExpr(x.Args[0], lt)
+				}
+			case *ast.SelectorExpr:
+				if p, ok := fn.X.(*ast.Ident); ok && p.Name == "time" && fn.Sel.Name == "Duration" {
+					return evalTTLExpr(x.Args[0], lt)
+				}
+			}
+		}
+		if se, ok := x.Fun.(*ast.SelectorExpr); ok && len(x.Args) == 0 { // d.Milliseconds(), int(d.Seconds())
+			d, err := evalTTLExpr(se.X, lt)
+			if err != nil {
+				return 0, err
+			}
+			switch se.Sel.Name {
+			case "Nanoseconds":
+				return d, nil
+			case "Microseconds":
+				return d / 1e3, nil
+			case "Milliseconds":
+				return d / 1e6, nil
+			case "Seconds":
+				return d / 1e9, nil
+			}
+		}
+	}
+	return 0, fmt.Errorf("expression form %T not understood", e)
+}
 
 func checkConfig(r *harness.Run) {
 	// The ttl handed to NewRedisCluster is computed inside (*SyncerCmd).Run, which cannot be run
 	// without a full syncer; the check replicates the expression and verifies it is still there.
+	var ttlOf func(time.Duration) (int64, error)
 	src, err := os.ReadFile(filepath.Join(repoDir(), "cmd", "syncer.go"))
-	replicated := err == nil && ttlExprRe.Match(src) && ttlUseRe.Match(src)
-	if !replicated {
-		r.Inconclusive("config: cmd/syncer.go no longer derives the election ttl as int(Cluster.LeaseTimeout / time.Second) -> NewRedisCluster(…, ttl) (or is unreadable: %v); clause (v) TTL part not decided", err)
+	if err == nil {
+		var text string
+		ttlOf, text, err = syncerTTL(src)
+		r.Set("syncer_ttl_expression", text)
 	}
-	r.Assume("election ttl = int(Cluster.LeaseTimeout / time.Second), the expression in cmd/syncer.go (*SyncerCmd).Run (presence verified textually, value replicated by the check)")
+	replicated := err == nil
+	if !replicated {
+		r.Inconclusive("config: cannot evaluate the ttl cmd/syncer.go hands to cluster.NewRedisCluster (%v); clause (v) TTL part not decided", err)
+	}
+	r.Assume("election ttl = the third argument of cluster.NewRedisCluster in cmd/syncer.go, read from the source under test and evaluated by the check for each fixed config ((*SyncerCmd).Run itself cannot run without a full syncer)")
 
 	dir, err := os.MkdirTemp("", "c15-builder-cfg-")
 	if err != nil {
@@ -140,7 +277,12 @@ func checkConfig(r *harness.Run) {
 		if !replicated {
 			continue
 		}
-		ttl := int(cc.LeaseTimeout / time.Second)
+		ttl64, err := ttlOf(cc.LeaseTimeout)
+		if err != nil {
+			r.Inconclusive("config: %v", err)
+			return
+		}
+		ttl := int(ttl64)
 		// what reaches the store
 		key := fmt.Sprintf("cfg-lease-%d", i)
 		tag := fmt.Sprintf("cfg-%d", i)
